@@ -149,6 +149,13 @@ func main() {
 	g2 := runtime.NumGoroutine()
 	after := listReports(*reports)
 	fmt.Printf("G %d %d %d\n", g0, g1, g2)
+	if g2 > g0 {
+		buf := make([]byte, 1<<20)
+		n := runtime.Stack(buf, true)
+		for _, l := range strings.Split(string(buf[:n]), "\n") {
+			fmt.Printf("L %s\n", l)
+		}
+	}
 	sizeAt := map[string]int64{}
 	for _, f := range atReturn {
 		sizeAt[f.name] = f.size
